@@ -5,6 +5,7 @@
 package pipe
 
 import (
+	"bytes"
 	"fmt"
 	"io"
 	"os"
@@ -491,12 +492,12 @@ func Run(w *Workload, dir string, limit time.Duration) *Observed {
 		go func() {
 			last := map[string]uint64{}
 			var seq uint64
-			// runaway guard: a stream of n bytes has at most n+1 lines. A scanner that stops advancing yields lines
+			// runaway guard: a stream with k newlines has at most k+1 lines. A scanner that stops advancing yields lines
 			// forever; the tap then stops forwarding (the reader goroutine stays parked on its send) so that the run
 			// ends with a finding instead of exhausting memory.
 			maxLines := len(w.Inputs) + 1
 			for _, in := range w.Inputs {
-				maxLines += len(in.Data)
+				maxLines += bytes.Count(in.Data, []byte("\n")) + 1
 			}
 			total := 0
 			for ib := range b.BatchChan() {
@@ -504,7 +505,7 @@ func Run(w *Workload, dir string, limit time.Duration) *Observed {
 				total += len(ib.Batch)
 				if total > maxLines {
 					tapMu.Lock()
-					obs.ContinuityErr = fmt.Sprintf("runaway: batcher delivered more than %d lines for %d input bytes (source %s, batch start %d)", maxLines, maxLines-len(w.Inputs)-1, ib.Source, ib.BatchStart)
+					obs.ContinuityErr = fmt.Sprintf("runaway: batcher delivered more than %d lines although the inputs hold fewer (source %s, batch start %d)", maxLines, ib.Source, ib.BatchStart)
 					tapMu.Unlock()
 					break
 				}
@@ -832,4 +833,46 @@ func equalInts(a, b []int) bool {
 		}
 	}
 	return true
+}
+
+// CapWriter collects the output of a child process up to Max bytes. A child that writes more than any
+// correct run can (a scanner that stopped advancing prints lines forever) is killed through OnOverflow,
+// and Overflowed() says so: the caller reports a finding instead of buffering without bound.
+type CapWriter struct {
+	mu         sync.Mutex
+	buf        bytes.Buffer
+	Max        int
+	over       bool
+	OnOverflow func()
+}
+
+func (w *CapWriter) Write(p []byte) (int, error) {
+	w.mu.Lock()
+	defer w.mu.Unlock()
+	if w.over {
+		return len(p), nil
+	}
+	if w.buf.Len()+len(p) > w.Max {
+		w.over = true
+		if w.OnOverflow != nil {
+			go w.OnOverflow()
+		}
+		return len(p), nil
+	}
+	return w.buf.Write(p)
+}
+
+func (w *CapWriter) Overflowed() bool { w.mu.Lock(); defer w.mu.Unlock(); return w.over }
+func (w *CapWriter) Bytes() []byte    { w.mu.Lock(); defer w.mu.Unlock(); return w.buf.Bytes() }
+func (w *CapWriter) String() string   { w.mu.Lock(); defer w.mu.Unlock(); return w.buf.String() }
+func (w *CapWriter) Len() int         { w.mu.Lock(); defer w.mu.Unlock(); return w.buf.Len() }
+
+// OutputBound: no filter/extract run over these inputs can print more than this many bytes.
+func OutputBound(w *Workload, maxPathLen int) int {
+	total, lines := 0, len(w.Inputs)
+	for _, in := range w.Inputs {
+		total += len(in.Data)
+		lines += bytes.Count(in.Data, []byte("\n"))
+	}
+	return 4*total + lines*(maxPathLen+96) + 1<<20
 }
